@@ -237,11 +237,12 @@ def e2e(out, r, tier, findings, stats):
     os.makedirs(base, exist_ok=True)
     drv = vlib.build_driver("select")
     _, model, _ = vlib.run_lines(drv, ["select\t%s\t%s" % (sl.enc_nodes(nd), sl.enc_cfg(cf)) for nd, cf, _ in cases])
+    _, mspec, _ = vlib.run_lines(drv, ["selectspec\t%s\t%s" % (sl.enc_nodes(nd), sl.enc_cfg(cf)) for nd, cf, _ in cases])
     with ThreadPoolExecutor(max_workers=32) as ex:
         results = list(ex.map(lambda a: run_e2e_case(grog, base, a[0], a[1][0], a[1][1], a[1][2]), enumerate(cases)))
     bad = 0
     kinds = {"built": 0, "platform-error": 0, "nothing-selected": 0, "known": 0}
-    for (nodes, cfg, cmd), res, m in zip(cases, results, model):
+    for (nodes, cfg, cmd), res, m, msp in zip(cases, results, model, mspec):
         lab = {sl.label_of(nd): i for i, nd in enumerate(nodes)}
         o = res["out"]
         rp = dict(case_json(nodes, cfg), cmd="grog " + " ".join(res["args"]), cwd_package=cfg["cur"], exit=res["exit"],
@@ -303,9 +304,13 @@ def e2e(out, r, tier, findings, stats):
                     sorted(sl.label_of(nodes[i]) for i in proj(want)[1]) if want[0] == "sel" else "platform error"), rp)
                 continue
         # the model predicts the same behaviour
-        pm = parse_sel(m)
-        pmj = ("platform-error",) if pm[0] == "platform-error" else ("targets", frozenset(i for i in pm[1] if nodes[i]["kind"] == "t"))
-        if pmj != g and not out.violations:
+        def mproj(line):
+            f = line.split("\t")
+            return ("platform-error",) if f[0] == "platform-error" else ("targets", frozenset(i for i in sl.idxs(f[1]) if nodes[i]["kind"] == "t"))
+        pmj = mproj(m)
+        if pmj != g and mproj(msp) == g:
+            stats["e2e_variant_repaired"] = stats.get("e2e_variant_repaired", 0) + 1
+        elif pmj != g and not out.violations:
             out.violation("correspondence Select.select_for_build ~ grog %s broke: model %s, executed %s" % (cmd, m, res["trace"]),
                           dict(rp, correspondence="Select.v vs grog build/test trace"), no_input=True)
     stats["e2e"] = kinds
